@@ -19,6 +19,7 @@ def dbg(hyps, goal, axioms=(), timeout_ms=10000, want_model=True):
     print('goals', len(goals), 'failed', bad)
     return ('proved' if not bad else 'unknown'), 'dbg', 0.0, None, None
 verify.solve=dbg
-spec=R.specs[key]; spec.post=[]; spec.may_raise=True
+spec=R.specs[key]; spec.may_raise=True
+if not os.environ.get("KEEP"): spec.post=[]
 rep=verify.verify_function(ex,key,10000)
 print(rep.status, rep.detail[:500])
